@@ -24,7 +24,7 @@ fn cdemand_value(d: usize, m: f64, r: f64, drv: f64, b: f64) -> f64 {
         "B-" => b * (1.0 - 1e-9),
         "B" => b,
         "B+" => b * (1.0 + 1e-6),
-        _ => demand_value(d, m, r, drv),
+        _ => demand_value(DEMANDS.iter().position(|x| *x == CDEMANDS[d]).unwrap(), m, r, drv),
     }
 }
 
